@@ -36,12 +36,12 @@ class C12(PropBase):
         return {"op": "init", "sessions": [{"name": "S", "role": role}, {"name": "T", "role": role}],
                 "illegal_p": rng.choice([0.0, 0.1, 0.3]), "chunk": rng.choice(["mixed", "mixed", "byte", "whole"]),
                 "drain_bias": rng.choice(["mixed", "mixed", "tiny", "lazy"]), "big": rng.choice([0.05, 0.2]),
-                "huge": rng.choice([0.0] * 9 + [0.02]),
+                "huge": rng.choice([0.0] * 9 + [0.02]), "first_id": rng.choice([1, 1, 1, 120, 250, 32760, 65530, 2 ** 31 - 40]),
                 "bad_text": rng.choice([0.0, 0.0, 0.04]), "style": policy.wire_style(rng)}
 
     def make(self, init):
         st = St(__import__("simldap.world", fromlist=["World"]).World(init))
-        st.x = {"seq": [], "partial_pending": False, "nontrivial": False, "next_req_id": 1, "drains": 0}
+        st.x = {"seq": [], "partial_pending": False, "nontrivial": False, "next_req_id": init.get("first_id", 1), "drains": 0}
         return st
 
     # ------------------------------------------------------------------ policy
